@@ -146,9 +146,6 @@ func c09Cases(thorough bool) []c09Case {
 	// two libraries: every edge set {main->L1, main->L2, L1->L2} in which every library is reachable
 	for _, f1 := range feats {
 		for _, f2 := range feats {
-			if !thorough && (f1 != f2 && f1 != 0 && f2 != 0) {
-				continue
-			}
 			for mask := 1; mask < 8; mask++ {
 				m1, m2, e12 := mask&1 != 0, mask&2 != 0, mask&4 != 0
 				if !m1 && !(m2 && false) {
@@ -183,9 +180,13 @@ func c09Cases(thorough bool) []c09Case {
 			}
 		}
 	}
-	if thorough {
+	{
 		// three libraries: every DAG over L1 < L2 < L3 (edges Li->Lj, i<j) x every non-empty set of main edges with all libs reachable
-		for _, f := range []int{fPriv, fPriv | fGlobal | fInit | fUseGlob} {
+		f3 := []int{fPriv | fGlobal | fInit | fUseGlob}
+		if thorough {
+			f3 = feats
+		}
+		for _, f := range f3 {
 			for dag := 0; dag < 8; dag++ {
 				e12, e13, e23 := dag&1 != 0, dag&2 != 0, dag&4 != 0
 				for mm := 1; mm < 8; mm++ {
